@@ -180,3 +180,27 @@ Proof. vm_compute. eexists. repeat split. Qed.
     congruent trials in a row remain *)
 Example ex_stroop_valid_count : length (all_valid (code_sem ex_stroop)) = 6.
 Proof. vm_compute. reflexivity. Qed.
+
+(** the widened fragment: the derived factor is crossed (the four inconsistent
+    combinations are left out of the crossing), Sequential on the text factor,
+    AtLeastKInARow on a derived level, ExactlyKInARow on a colour *)
+Definition ex_wide : flat :=
+  {| fl_design := [xsimple; xsimple; xcon]; fl_act := [0; 1; 2];
+     fl_crossings := [[0; 1; 2]]; fl_sustains := [1]; fl_weights := [1]; fl_sizes := [4];
+     fl_preambles := [0]; fl_alignment := EqualPreamble; fl_alignment_preamble := 0;
+     fl_min_trials := 0; fl_trials := 4; fl_rcc := true; fl_exclude := [];
+     fl_excluded_derived := [];
+     fl_constraints := [FCross; FConsistency; FSequential 1; FAtLeast 1 2 0 None; FExactlyKInARow 1 0 0 None;
+                        FDerivation 4 [[DIdx 0; DIdx 2]; [DIdx 1; DIdx 3]] 2;
+                        FDerivation 5 [[DIdx 0; DIdx 3]; [DIdx 1; DIdx 2]] 2];
+     fl_errors_fail := false |}.
+
+Example ex_wide_facts :
+  in_f1 ex_wide = true /\ 0 < T ex_wide /\
+  length (trial_combinations_of ex_wide [0; 1; 2]) = 4 /\ length (crossing_combos ex_wide [0; 1; 2]) = 8 /\
+  (exists b, compile ex_wide = COk b /\ b_fresh b = 139%Z) /\
+  length (all_valid (code_sem ex_wide)) = 1.
+Proof.
+  split; [vm_compute; reflexivity|]. split; [vm_compute; lia|]. split; [vm_compute; reflexivity|].
+  split; [vm_compute; reflexivity|]. split; [vm_compute; eexists; split; reflexivity|vm_compute; reflexivity].
+Qed.
